@@ -8,6 +8,7 @@ below and proved to diverge — that was defect F2.
 -/
 import Gkv.Proofs.Scan
 import Gkv.Proofs.MachineR
+import Gkv.Proofs.WorldFrame
 open Std
 
 namespace Gkv.Props.C08
@@ -193,5 +194,23 @@ theorem file_agrees_after_history (cmpOf : Bytes → CmpKind) (ops : List ROp) (
      .base (.set [97] ⟨[2], [2], 2⟩), .base .flush, .base (.set [97] ⟨[3], [3], 3⟩), .base .flush,
      .revert, .revert, .base (.set [97] ⟨[4], [4], 4⟩), .base .flush, .base (.del [97] [4]), .base .reopen])
   == [([97], [⟨[1], [1], 1⟩, ⟨[4], [4], 4⟩])]
+
+/-- "memory-only stores reject the call": in the history interpreter a `revert` (and a `flush`)
+    through a store without a file answers the refusal and changes nothing — no collection, no
+    other store, no file.  The streams compare this with the package for memory-only stores opened
+    on the untyped nil AND on a nil pointer of a file type (seeded change C08h: the typed nil
+    slipped past the guards and `FlushRevert` wiped the store before failing). -/
+theorem memory_only_stores_reject_the_call (w : World) (s : String) (sid : Nat) (st : Store)
+    (hs : s.toNat? = some sid) (hst : assocGet sid w.stores = some st) (hf : st.file = none) :
+    stepTokens w ["revert", s] = (w, "err-nofile") ∧
+    (st.readOnly = false → stepTokens w ["flush", s] = (w, "err-nofile")) :=
+  ⟨memory_only_rejects_revert w s sid st hs hst hf,
+   fun hrw => memory_only_rejects_flush w s sid st hs hst hf hrw⟩
+
+/-- not vacuous: a world with one memory-only store meets the hypotheses … -/
+example : ∃ (w : World) (st : Store), assocGet 1 w.stores = some st ∧ st.file = none :=
+  ⟨{ files := [], stores := [(1, ⟨none, 0, [], false⟩)] }, ⟨none, 0, [], false⟩, rfl, rfl⟩
+-- … and (an evaluated test, not a proof) the interpreter refuses there:
+#guard (stepTokens (stepTokens { files := [], stores := [] } ["mem", "1"]).1 ["revert", "1"]).2 == "err-nofile"
 
 end Gkv.Props.C08
